@@ -118,6 +118,15 @@ pub fn run_case(c: &Sexp) -> R<Sexp> {
             let r = rule_of(&l[2])?.recreate_variables(&mut VarMap::new());
             Ok(ok(L(vec![sexp_of_rule(&r), A(get_var_id().to_string())])))
         },
+        // clause fetch as the solver does it: clause IDX of the predicate of the first rule
+        ("get-rule", 4) => {
+            let kb = crate::ops_solve::kb_of(&l[3])?;
+            let first = rule_of(&l[3].list()?[1])?;
+            let idx = l[2].atom()?.parse::<usize>().map_err(|e| e.to_string())?;
+            set_var_id(l[1].atom()?.parse::<usize>().map_err(|e| e.to_string())?);
+            let r = get_rule(&kb, &first.key(), idx);
+            Ok(ok(L(vec![sexp_of_rule(&r), A(get_var_id().to_string())])))
+        },
         ("make-query", 2) => {
             let g = make_query(terms_of(&l[1])?);
             Ok(ok(L(vec![sexp_of_goal(&g), A(get_var_id().to_string())])))
